@@ -53,6 +53,7 @@ ASSUMPTIONS = ['an exception instead of output is not a leak (counted '
                'a tainted value is a TaintedString passed in the namespace '
                '(what request.taintWrapper produces)']
 CASE_CPU_SECONDS = 120.0
+CASE_CPU_SECONDS_QUICK = 10.0
 
 MODS = ['html_quote', 'url_quote', 'url_quote_plus', 'url_unquote',
         'url_unquote_plus', 'newline_to_br', 'lower', 'upper', 'capitalize',
